@@ -79,3 +79,36 @@ u64 vpx_strtol(void* s, void* end, u32 base) {
 }
 u64 vpx_strtoull(void* s, void* end, u32 base) { return vpx_strtoul(s, end, base); }
 u64 vpx_strtoll(void* s, void* end, u32 base) { return vpx_strtol(s, end, base); }
+
+/* mini sscanf (DESIGN 2.3): literal characters, white space, %%, %1x. Any other directive in the *format* is reported:
+ * ebusd only ever uses "%1x%1x", so a different directive means the format string is not the constant it should be. */
+#include <stdarg.h>
+static int is_ws(char c) { return c == ' ' || (c >= 9 && c <= 13); }
+u32 vpx___isoc99_sscanf(void* strv, void* fmtv, ...) {
+  const char* s = strv; const char* f = fmtv;
+  va_list ap;
+  va_start(ap, fmtv);
+  u32 n = 0; int any_conv = 0;
+  while (*f) {
+    if (is_ws(*f)) { while (is_ws(*s)) s++; f++; continue; }
+    if (*f != '%') { if (*s != *f) break; s++; f++; continue; }
+    f++;
+    if (*f == '%') { while (is_ws(*s)) s++; if (*s != '%') break; s++; f++; continue; }
+    if (f[0] == '1' && f[1] == 'x') {
+      f += 2;
+      while (is_ws(*s)) s++;
+      if (!*s) { if (!any_conv && n == 0) { va_end(ap); return (u32)-1; } break; }
+      int d = digval((u8)*s);
+      if (d >= 16) break;
+      any_conv = 1;
+      u32* out = va_arg(ap, u32*);
+      *out = (u32)d;
+      s++; n++;
+      continue;
+    }
+    VP_CHK("format-string:directive-other-than-%1x-in-sscanf-format", 0);
+    __CPROVER_assume(0);
+  }
+  va_end(ap);
+  return n;
+}
